@@ -43,7 +43,7 @@ Proof. exact run_uniq. Qed.
 Theorem C19_conflict_exact : forall me c base inc d,
   Uniq d -> consume_ok base inc d = true ->
   let d1 := merged me c base inc d in
-  consume me c base inc d = map (fun x => if clash1 d1 x then set_cls c 2 x else x) d1.
+  consume me c base inc d = map (fun x => if clash1 d1 x then to_conflict c x else x) d1.
 Proof. exact consume_declarative. Qed.
 
 (* "Identically on every replica", decision level: the set of entries a consumer conflicts is a function
